@@ -15,6 +15,8 @@
  *   pollsig <adv_usec>                 queue "a signal arrives during poll (any timeout), its handler calls
  *                                      events_interrupt(), poll fails with EINTR"
  *   run                                events_run()
+ *   setdone                            the program sets the variable events_spin() watches (trace: done:ok)
+ *   spin                               events_spin(&spin_done); the variable is cleared afterwards
  * In-callback ops: ri:<id>:<prio> ci:<id> rn:<id>:<fd>:<r|w> cn:<fd>:<r|w> rt:<id>:<usec>
  *   ct:<id> xt:<id> int clk:<usec> done
  * Guards (the API contract): an id is registered only while dead, immediates/timers are
@@ -22,6 +24,11 @@
  *
  * Output, one line per input line:  <trace tokens> | <state>
  *   tokens: <op>:<res>  run  cb:<id>  end:<rc>  poll:<timeout>:<adv>:<fd/events/revents,..>:<ok|eintr|stuck|intr>  ret:<rc>
+ *           spin  ...  spinret:<rc>   (events_spin: same tokens in between, there is no mark between two turns of its loop)
+ * events_spin ends like events_run does when the scripted answers run out: the default answer to an infinite wait
+ * with nothing ready is a signal whose handler calls events_interrupt(); a finite wait runs to its end, so a timer
+ * expires; callbacks beyond CBCAP per call return 98.  The non-zero values `done` stores differ (2, 1, -1, 256, ...):
+ * events_spin() must stop for every non-zero value.
  *   state : nfds, fdscanpos, fds[], S[], minq, the 32 queues, live timers, clock, interrupt flag
  *
  * -DHC_BLACKBOX (used when the white-box build no longer compiles, e.g. after a static or a member of a
@@ -94,6 +101,8 @@ static size_t pqlen = 0, pqhead = 0, pqcap = 0;
 static unsigned long long clock_us = 0;
 static int cbcount = 0;
 static int spin_done = 0;
+static int ndone = 0;			/* `done` ops of this case so far */
+static const int donevals[4] = {2, 1, -1, 256};
 
 #ifdef HC_BLACKBOX
 /* An events_interrupt() was issued and no events_run() has returned since. */
@@ -355,7 +364,7 @@ do_op(const char * op, long long a, long long b, int dir)
 		clock_us += (unsigned long long)a;
 		out("clk:%lld:ok", a);
 	} else if (strcmp(op, "done") == 0) {
-		spin_done = 1;
+		spin_done = donevals[ndone++ % 4];
 		out("done:ok");
 	} else
 		out("bad-op");
@@ -601,6 +610,7 @@ reset_all(void)
 	}
 #endif
 	spin_done = 0;
+	ndone = 0;
 	cbcount = 0;
 }
 
@@ -653,6 +663,15 @@ main(void)
 			rc = events_run();
 			BB_INTR(0);
 			out("ret:%d", rc);
+		} else if (hc_is("setdone", 0))
+			do_op("done", 0, 0, 0);
+		else if (hc_is("spin", 0)) {
+			cbcount = 0;
+			out("spin");
+			rc = events_spin(&spin_done);
+			BB_INTR(0);
+			spin_done = 0;
+			out("spinret:%d", rc);
 		} else
 			out("bad-op");
 		if (oblen == 0)
